@@ -37,10 +37,12 @@ def dy(rng, lo=1, hi=12, q=8):
     return float(int(rng.integers(lo, hi + 1))) / q
 
 
-def gen_spec(rng, n_states=None, max_states=6):
+def gen_spec(rng, n_states=None, max_states=6, one_compartment=False):
     used = set()
     n = int(n_states or rng.integers(2, max_states + 1))
     comps = [{'id': rand_id(rng, used), 'size': dy(rng, 4, 16)} for _ in range(int(rng.integers(1, 4)))]
+    if one_compartment:
+        comps = comps[:1]            # all species share one compartment (several dosable states in it)
     pars = [{'id': rand_id(rng, used), 'value': dy(rng, 2, 10)} for _ in range(int(rng.integers(2, 6)))]
 
     def lit_mono(max_f=2, allow_size=True):
